@@ -1026,6 +1026,12 @@ func FromV3RequestBodyFormData(mediaType *openapi3.MediaType) openapi2.Parameter
 				break
 			}
 		}
+		for _, name := range mediaType.Schema.Value.Required {
+			if name == propName {
+				required = true
+				break
+			}
+		}
 
 		var v2Items *openapi2.SchemaRef
 		if val.Items != nil {
